@@ -381,13 +381,6 @@ func (w *World) serveHTTP(ev *httpEvent) httpResult {
 	}
 	n := w.srcs[src].node
 	if ev.ws {
-		if st := w.c08; st != nil {
-			// the listener turning to the source counts as asking it, answered
-			// or not (as a poll does)
-			st.mu.Lock()
-			st.headHits = 0
-			st.mu.Unlock()
-		}
 		if w.faultsOn() && f.HTTPPerMille > 0 && w.st.Chance(f.HTTPPerMille, 1000, "ws-dial-fault") {
 			w.stat("fault_ws_dial_refused", 1)
 			w.stat("fault_total", 1)
